@@ -40,15 +40,15 @@ def retag(rep, start, tag):
 
 
 def per_config(rep, env, fn, light=False):
-    """term-level (heavy) rules: `default` configuration in the quick tier (features only add
-    Drop bodies and re-exports, the kernels' MIR is identical), every configuration in the
-    thorough tier.  Item-level (light) rules: every configuration of the tier."""
-    cfgs = env.configs() if (light or env.tier == "thorough") else ["default"]
+    """term-level (heavy) rules: `all-features` configuration in the quick tier (features are
+    additive, so it is the superset of the code any configuration compiles), every configuration
+    in the thorough tier.  Item-level (light) rules: every configuration of the tier."""
+    cfgs = env.configs() if (light or env.tier == "thorough") else ["all-features"]
     env.used = sorted(set(getattr(env, "used", [])) | set(cfgs))
     for c in cfgs:
         start = len(rep.obls)
         fn(env.fb(c))
-        retag(rep, start, "" if c == "default" else "@" + c)
+        retag(rep, start, "" if (c == "default" or len(cfgs) == 1) else "@" + c)
 
 
 # ---------------------------------------------------------------- properties
